@@ -1,6 +1,6 @@
 from props import cfg
 
-CFG = cfg('C05', refine=['Refine_sig'], extract='Ex_Sig', driver='sig',
+CFG = cfg('C05', refine=['Refine_sig', 'Refine_subarea'], extract='Ex_Sig', driver='sig',
           rule='generated hashed areas (creation time + 0..5 subpackets drawn from: unknown types, flag octets 0..255 and multi-octet flags, '
                'booleans 0/1/other, UTF-8 and non-UTF-8 text in URI/notation/regex/reason/signer-id, non-minimal length encodings, preference '
                'lists, times, issuer forms, notation flags, revocation-key classes, critical unknown types) signed by the independent signer '
